@@ -49,7 +49,7 @@ def explore(world: World, run, assumptions=(), ext=None, loop_specs=None, max_pa
     return out
 
 
-def check_valid(world, hyps, goal, timeout_ms=10000):
+def check_valid(world, hyps, goal, timeout_ms=25000):
     """Is (hyps => goal) valid?  Returns ('proved', None) | ('refuted', model) | ('unknown', reason)."""
     s = z3.Solver()
     s.set("timeout", timeout_ms)
@@ -64,7 +64,7 @@ def check_valid(world, hyps, goal, timeout_ms=10000):
     return "unknown", s.reason_unknown()
 
 
-def discharge_obligations(world, results, extra_hyps=(), timeout_ms=20000):
+def discharge_obligations(world, results, extra_hyps=(), timeout_ms=50000):
     """Prove every obligation recorded along the explored paths. Returns (ok, failures[(label, verdict, model)])."""
     fails = []
     n = 0
